@@ -691,7 +691,7 @@ let () =
               else "ok"
             end in
         Mlutil.print_model model verdict
-    | "hist", [capf; poolf; opsf] ->
+    | "hist", (capf :: poolf :: opsf :: _) ->     (* an optional 4th field says how the driver lays out the directory: not the model's business *)
         let ctx0 = mk_ctx capf poolf in
         let ops = parse_ops opsf in
         (* the model: the state IS the disk, a reopen / restart changes nothing (a new cap is configuration) *)
